@@ -122,6 +122,9 @@ fn main() {
                     let mut x = seed.wrapping_mul(0x9E37_79B9_7F4A_7C15) | 1;
                     cfg.first_inputs = (0..64).map(|_| { x ^= x << 13; x ^= x >> 7; x ^= x << 17; (x % 7) as i64 - 3 }).collect();
                     i += 2;
+                } else if a == "--witnesses" {
+                    cfg.n_witnesses = args[i + 1].parse().unwrap();
+                    i += 2;
                 } else if a == "--jobs" {
                     jobs = args[i + 1].parse().unwrap();
                     i += 2;
@@ -175,6 +178,7 @@ fn main() {
                         c.arg(format!("{}={}", k, v));
                     }
                     c.args(["--max-secs", &format!("{}", remaining), "--max-paths", &format!("{}", cfg.max_paths), "--qto", &format!("{}", cfg.query_timeout_ms), "--solver", &cfg.solver]);
+                    c.args(["--witnesses", &format!("{}", cfg.n_witnesses / jobs + 1)]);
                     c.arg("--work-in").arg(&wf).arg("--out").arg(&of);
                     kids.push((c.spawn().expect("spawn shard"), wf, of));
                 }
@@ -203,6 +207,27 @@ fn main() {
                 Some(f) => std::fs::write(f, txt).unwrap(),
                 None => println!("{}", txt),
             }
+        }
+        "observe" => {
+            // hs observe <harness> <inputs.json> k=v ... : native f64 outputs for each input vector (one JSON line each)
+            let name = &args[2];
+            let h = reg.iter().find(|h| h.name == *name).expect("unknown harness");
+            let vecs: Vec<Vec<i64>> = serde_json::from_str(&std::fs::read_to_string(&args[3]).expect("inputs file")).unwrap();
+            let mut params: BTreeMap<String, i64> = BTreeMap::new();
+            for a in &args[4..] {
+                if let Some((k, v)) = a.split_once('=') {
+                    params.insert(k.to_string(), v.parse().unwrap());
+                }
+            }
+            let p = Params(params);
+            symx::explore::install_panic_hook();
+            let nat = h.native.expect("harness has no native instantiation");
+            let mut outs: Vec<Vec<u64>> = vec![];
+            for inp in &vecs {
+                let o = symx::run_once(false, inp, &|| nat(&p));
+                outs.push(o.arena.observations.clone());
+            }
+            println!("{}", serde_json::to_string(&outs).unwrap());
         }
         "replay" => {
             // file: {"harness":..., "params":{...}, "inputs":[...]}
